@@ -159,7 +159,7 @@ func allStrings(alphabet []rune, n int) []string {
 func c08errS(err error) string {
 	k := c08errKind(err)
 	if strings.HasPrefix(k, "other:") {
-		return tag("?", atom(k[6:]))
+		return tag("?unclassified?", atom(k[6:]))
 	}
 	return atom(k)
 }
